@@ -8,10 +8,20 @@
      bls_sound    : the aggregate check accepting a key list for a payload
                     implies every listed key signed exactly that payload
                     (ideal multi-signature);
-     seats_nonneg : choose never returns a negative number (C04).
-   [variant]: [asis] is /repo as it stands, [fixed] is /repo with
-   fixes/C01_*.diff applied; the correspondence harness compares the
-   implementation with the variant named in props/C01.py.
+     seats_nonneg : choose never returns a negative number (C04);
+     ecdsa_sound  : a header signature that recovers to key k over hash hh
+                    was made by k over hh ([sealed k hh]).
+   [variant]: [fixed] is /repo as it stands (after the repairs 360182b,
+   ba51383, ea6644d, f562ba5 and 3eba51b) and is what the correspondence
+   harness compares the implementation with; [asis] is the verifier before
+   those repairs, kept only to state what was wrong.
+
+   [seal_ok O sealed h]: the consensus data of h decodes, its signer pk is
+   recoverable, and the header signature recovers over h's hash to that same
+   pk - the key the proposer credential is checked against in
+   [C01_statement] - hence pk sealed this header.  This is exactly what
+   verifySignature guarantees; it does not by itself say that pk is a
+   validator (that is [proposer_ok] inside [C01_statement]).
 
    [C01_statement O signed cp vers seedH lb certH certlb h] is C01 for one
    header h: the proposer is an online chamber member of the look-back set lb
@@ -33,7 +43,8 @@ From VF.C01 Require Import Model Proofs ProofsB ProofsC Bridge.
 From VF.gen Require Import C01Tables.
 Local Open Scope N_scope.
 
-(* ---- the property for the repaired verifier, full strength ------------------------ *)
+(* ---- the property for the verifier as it stands, full strength: acceptance by
+        VerifySideChainHeader implies C01_statement and seal_ok -------------------------- *)
 Theorem C01_repaired_quorum : C01_full_for fixed.
 Proof. exact repaired_full. Qed.
 Print Assumptions C01_repaired_quorum.
@@ -51,17 +62,22 @@ Print Assumptions C01_refuted_non_member_voter.
 Theorem C01_refuted_zero_seat_proposer : ~ C01_full.
 Proof. exact refuted_by_zero_seat_proposer. Qed.
 Print Assumptions C01_refuted_zero_seat_proposer.
+(* (d) the side-chain entry point did not check the header signature (found by C11) *)
+Theorem C01_refuted_unsealed_header : ~ C01_full.
+Proof. exact refuted_by_unsealed_header. Qed.
+Print Assumptions C01_refuted_unsealed_header.
 
-(* ---- the unrepaired verifier satisfies C01 on every input outside the three listed
+(* ---- the unrepaired verifier satisfies C01 on every input outside the four listed
         classes ([finding_class] is the decidable description in Model.v) ------------- *)
 Theorem C01_holds_outside :
-  forall (O : oracles) (signed : blskey -> payload -> Prop),
+  forall (O : oracles) (signed : blskey -> payload -> Prop) (sealed : key -> N -> Prop),
     (forall pubs pl s, o_bls O pubs pl s = Some true -> forall k, In k pubs -> signed k pl) ->
     (forall h st t tot j, o_seats O h st t tot = Some j -> (0 <= j)%Z) ->
+    (forall hh s k, o_recover O hh s = Some k -> sealed k hh) ->
     forall cp vers seedH lb certH certlb h parent,
       verify_side O asis cp vers seedH lb certH certlb h parent = Accept ->
       finding_class O cp vers seedH lb certH certlb h = false ->
-      C01_statement O signed cp vers seedH lb certH certlb h.
+      C01_statement O signed cp vers seedH lb certH certlb h /\ seal_ok O sealed h.
 Proof. exact asis_outside. Qed.
 Print Assumptions C01_holds_outside.
 
@@ -135,24 +151,29 @@ Print Assumptions C01_constants.
 Example C01_nonvacuous_accept :
   (forall pubs pl s, o_bls w_O pubs pl s = Some true -> forall k, In k pubs -> signed_t w_tables k pl) /\
   (forall h st t tot j, o_seats w_O h st t tot = Some j -> (0 <= j)%Z) /\
+  (forall hh s k, o_recover w_O hh s = Some k -> sealed_t w_tables k hh) /\
   verify_side w_O fixed w_cp [] w_seedH w_lb w_seedH w_lb (w_hdr w_cd_ok w_uv_ok) (Some w_parent) = Accept /\
   verify_side w_O asis w_cp [] w_seedH w_lb w_seedH w_lb (w_hdr w_cd_ok w_uv_ok) (Some w_parent) = Accept /\
   finding_class w_O w_cp [] w_seedH w_lb w_seedH w_lb (w_hdr w_cd_ok w_uv_ok) = false.
 Proof.
-  split; [exact w_bls_sound|]. split; [exact w_seats_nonneg|].
+  split; [exact w_bls_sound|]. split; [exact w_seats_nonneg|]. split; [exact (table_ecdsa_sound w_tables)|].
   split; [exact w_accept_fixed|]. exact w_accept_asis.
 Qed.
 Print Assumptions C01_nonvacuous_accept.
 
-(* the three forged headers are accepted by the unrepaired model and rejected by the repaired one *)
+(* the four forged headers are accepted by the unrepaired model and rejected by the repaired one *)
 Example C01_nonvacuous_forgeries :
   (verify_side w_O asis w_cp [] w_seedH w_lb w_seedH w_lb (w_hdr w_cd_thr w_uv_thr) (Some w_parent) = Accept
    /\ verify_side w_O fixed w_cp [] w_seedH w_lb w_seedH w_lb (w_hdr w_cd_thr w_uv_thr) (Some w_parent) = EInvalidCD) /\
   (verify_side w_O asis w_cp [] w_seedH w_lb w_seedH w_lb (w_hdr w_cd_ok w_uv_house) (Some w_parent) = Accept
    /\ verify_side w_O fixed w_cp [] w_seedH w_lb w_seedH w_lb (w_hdr w_cd_ok w_uv_house) (Some w_parent) = EInvalidCD) /\
   (verify_side w_O asis w_cp [] w_seedH w_lb w_seedH w_lb (w_hdr w_cd_zero w_uv_ok) (Some w_parent) = Accept
-   /\ verify_side w_O fixed w_cp [] w_seedH w_lb w_seedH w_lb (w_hdr w_cd_zero w_uv_ok) (Some w_parent) = EInvalidCD).
-Proof. split; [exact w_thr_accepted|]. split; [exact w_house_accepted|exact w_zero_accepted]. Qed.
+   /\ verify_side w_O fixed w_cp [] w_seedH w_lb w_seedH w_lb (w_hdr w_cd_zero w_uv_ok) (Some w_parent) = EInvalidCD) /\
+  (verify_side w_O asis w_cp [] w_seedH w_lb w_seedH w_lb w_hdr_unsealed (Some w_parent) = Accept
+   /\ verify_side w_O fixed w_cp [] w_seedH w_lb w_seedH w_lb w_hdr_unsealed (Some w_parent) = EInvalidSealer).
+Proof.
+  split; [exact w_thr_accepted|]. split; [exact w_house_accepted|]. split; [exact w_zero_accepted|exact w_unsealed_accepted].
+Qed.
 Print Assumptions C01_nonvacuous_forgeries.
 
 (* a junk vote exists: after validator 0 was counted, a second vote of validator 0 is a duplicate *)
